@@ -77,7 +77,9 @@ def gen_case(r, hashseed, tier):
   if r.random() < 0.25:
     aux_db = [r.choice(['before', 'after']), r.choice(['aux', 'a_db', 'zz_other'])]
   return {'hashseed': hashseed, 'program': program, 'ground': ground, 'ground_table': ground_table,
-          'versions': versions, 'ops': ops, 'aux_db': aux_db, 'attach_via_flag': r.random() < 0.25}
+          'versions': versions, 'ops': ops, 'aux_db': aux_db, 'attach_via_flag': r.random() < 0.25,
+          # @Dataset("logica_test"): grounded tables are asked to live in the in-memory database although a file is attached
+          'dataset_memory': (not ground_table) and r.random() < 0.12}
 
 
 def gen_fault(r):
@@ -106,11 +108,13 @@ def program_at(case, version, dbpath):
   p['ground_table'] = dict(case.get('ground_table') or {})
   p['attach'] = dbpath
   p['attach_via_flag'] = bool(case.get('attach_via_flag'))
+  if case.get('dataset_memory'):
+    p['noise'] = list(p.get('noise') or []) + ['@Dataset("logica_test");']
   if case.get('aux_db'):
     # a second attached database that nothing uses: the grounded tables must still land in logica_home
     where = case['aux_db']
     aux = '@AttachDatabase("%s", "%s");' % (where[1], dbpath[:-3] + '-aux.db')
-    p['noise'] = [aux]
+    p['noise'] = list(p.get('noise') or []) + [aux]
     p['attach_after_noise'] = where[0] == 'before'
   return p
 
@@ -212,6 +216,8 @@ def run_history(case, scratch):
     """Name of the table of grounded predicate g inside the attached file."""
     return gt[g].split('.', 1)[1] if g in gt else g
   pred_of_table = {tab(g): g for g in ground}
+  in_memory = bool(case.get('dataset_memory'))      # grounded tables live in logica_test, not in the file
+  home_db = 'logica_test' if in_memory else HOME
   version = 0
   refs = {}
 
@@ -379,7 +385,7 @@ def run_history(case, scratch):
       created_at = {}
       for s in world.statements:
         for t in s.creates:
-          if t.startswith(HOME + '.'):
+          if t.startswith(home_db + '.'):
             g_ = pred_of_table.get(t.split('.', 1)[1], t.split('.', 1)[1])
             written.add(g_)
             created_at[g_] = s.index
@@ -400,10 +406,10 @@ def run_history(case, scratch):
         needed |= {g for g in ground if g in dep[p] and g != p}
       for g in sorted(needed):
         want = expect_table(by[g], R)
-        if table_key(after.get(tab(g))) != table_key(want):
+        if not in_memory and table_key(after.get(tab(g))) != table_key(want):
           V('table-contents', 'intermediate', 'table %s holds %s, %s evaluates to %s' % (
               tab(g), after.get(tab(g)), g, want), i)
-        name = '%s.%s' % (HOME, tab(g))
+        name = '%s.%s' % (home_db, tab(g))
         # every connection of the run is a script of its own (logica.py P,Q runs one per predicate)
         any_read = False
         for conn in sorted({s.conn for s in world.statements}):
@@ -423,7 +429,9 @@ def run_history(case, scratch):
         if g in stale_before:
           info['probes']['reader_ran_while_stale_copy_of_input_existed'] += 1
       # (c') whatever grounded table this run wrote holds what the predicate evaluates to
-      for g in sorted(written):
+      if in_memory and core.canon(after) != core.canon(before):
+        V('wrong-database', 'file-changed', 'the program keeps its grounded tables in the in-memory dataset, yet the attached file changed: before %s, after %s' % (sorted(before), sorted(after)), i)
+      for g in sorted(written if not in_memory else ()):
         if g in by and g in ground and table_key(after.get(tab(g))) != table_key(expect_table(by[g], R)):
           if g not in needed:
             V('table-contents', 'written', 'table %s written by this run holds %s, %s evaluates to %s' % (
